@@ -323,7 +323,7 @@ func genC05(t *rapid.T) CaseC05 {
 			// heap AND stack must stay within a small multiple of the input
 			c.Family = "many-tiny-sections"
 			tid := rapid.SampledFrom([]byte{0x00, 0x00, 0x02, 0x42, 0xFC}).Draw(t, "tiny-tid")
-			n := rapid.SampledFrom([]int{16 << 10, 64 << 10, 256 << 10}).Draw(t, "tiny-total")
+			n := rapid.SampledFrom([]int{64 << 10, 256 << 10, 256 << 10, 1 << 20}).Draw(t, "tiny-total")
 			c.Input = make([]byte, 1, n+1)
 			for len(c.Input)+3 <= n+1 {
 				c.Input = append(c.Input, tid, 0x00, 0x00)
@@ -718,8 +718,10 @@ func c05Decode(what string, n int, fn func()) *hx.Failure {
 	}
 	// goroutine stacks count as memory too (a decoder that recurses once per section needs a stack of tens of times the input
 	// and dies of a stack overflow on a few MiB): the stack the call grew stays in use until the next collection shrinks it
-	if m1.StackInuse > m0.StackInuse && m1.StackInuse-m0.StackInuse > 256<<10+8*uint64(n) {
-		return hx.Failf("memory:stack:"+what, "%s grew the goroutine stacks by %d bytes while decoding a %d-byte input (budget: 256 KiB + 8 bytes per input byte)", what, m1.StackInuse-m0.StackInuse, n)
+	// (the constant is generous on purpose: a stack that an earlier, larger call had grown and the collector has since halved
+	// grows back in one step of up to its former size, and that step is charged to whichever call crosses it)
+	if m1.StackInuse > m0.StackInuse && m1.StackInuse-m0.StackInuse > 4<<20+8*uint64(n) {
+		return hx.Failf("memory:stack:"+what, "%s grew the goroutine stacks by %d bytes while decoding a %d-byte input (budget: 4 MiB + 8 bytes per input byte)", what, m1.StackInuse-m0.StackInuse, n)
 	}
 	return nil
 }
@@ -1140,7 +1142,7 @@ func checkC05(c CaseC05, x *hx.Ctx) *hx.Failure {
 var propC05 = hx.Register(hx.Prop[CaseC05]{ID: "C05", Gen: genC05, Check: checkC05})
 
 func c05Rule() {
-	hx.Rec("C05").SetRule("cases: (entry-point group, input) over 17 groups: packet accessors / adaptation-field getters / modifiers on 188-byte arrays; FromBytes; PSI accessors; NewPAT, NewPMT (+ every getter, descriptor decoder, String, RemoveElementaryStreams), descriptor decoders directly, FilterPMTPacketsToPids; NewPESHeader; ReadEncoderBoundaryPoint; NewSCTE35 (+ every getter of signal/command/descriptors, String, then UpdateData and a re-decode of what it emits); Sync, ReadPAT, ReadPMT, accumulator, IOWriter.Write/ReadFrom over byte streams through fragmenting and failing readers. Inputs come from three families: well-formed instances from the reference builders; those instances mutated 1..3 times (truncate anywhere, boundary constants 0x00/0xFF/0x7F/0x80/0x0D/0x47/183/184/188 at any offset, +-1/2 on any byte, random byte, extension, bit flip, byte removal; for packets: af_len 0..255, flags byte, AFC, variable-field length bytes; for SCTE-35: UPID type forced to MID with any residual length, segmentation descriptors ending 1..6 bytes early or 1..3 late inside otherwise consistent lengths, and 65 KiB sections with descriptor_loop_length >= 65270 ending up to 3 bytes short/long; for the PMT filter: 355..360 packets (more than 64 KiB) on the PMT PID behind a first section of another table with section_length 0..6; for the PSI decoders: 16..256 KiB of three-byte sections behind one pointer_field); arbitrary bytes. Oracle: no panic (recovered, keyed by innermost library function + statement text), returns within 20 s and below 1 GiB heap (in-process watchdog), every decoder call (NewPAT, NewPMT, NewPESHeader, ReadEncoderBoundaryPoint, NewSCTE35) allocates at most 64 KiB + 128 bytes per input byte (exact TotalAlloc deltas; printing and re-encoding are only required not to panic) and grows the goroutine stacks by at most 256 KiB + 8 bytes per input byte (StackInuse deltas), read-only operations leave the caller's buffer byte-identical, objects returned without error survive all getters, printing and re-encoding. Non-trivial: input from the mutated, arbitrary, bigloop or bigfirst family; distinct by (target, input).",
+	hx.Rec("C05").SetRule("cases: (entry-point group, input) over 17 groups: packet accessors / adaptation-field getters / modifiers on 188-byte arrays; FromBytes; PSI accessors; NewPAT, NewPMT (+ every getter, descriptor decoder, String, RemoveElementaryStreams), descriptor decoders directly, FilterPMTPacketsToPids; NewPESHeader; ReadEncoderBoundaryPoint; NewSCTE35 (+ every getter of signal/command/descriptors, String, then UpdateData and a re-decode of what it emits); Sync, ReadPAT, ReadPMT, accumulator, IOWriter.Write/ReadFrom over byte streams through fragmenting and failing readers. Inputs come from three families: well-formed instances from the reference builders; those instances mutated 1..3 times (truncate anywhere, boundary constants 0x00/0xFF/0x7F/0x80/0x0D/0x47/183/184/188 at any offset, +-1/2 on any byte, random byte, extension, bit flip, byte removal; for packets: af_len 0..255, flags byte, AFC, variable-field length bytes; for SCTE-35: UPID type forced to MID with any residual length, segmentation descriptors ending 1..6 bytes early or 1..3 late inside otherwise consistent lengths, and 65 KiB sections with descriptor_loop_length >= 65270 ending up to 3 bytes short/long; for the PMT filter: 355..360 packets (more than 64 KiB) on the PMT PID behind a first section of another table with section_length 0..6; for the PSI decoders: 64 KiB..1 MiB of three-byte sections behind one pointer_field); arbitrary bytes. Oracle: no panic (recovered, keyed by innermost library function + statement text), returns within 20 s and below 1 GiB heap (in-process watchdog), every decoder call (NewPAT, NewPMT, NewPESHeader, ReadEncoderBoundaryPoint, NewSCTE35) allocates at most 64 KiB + 128 bytes per input byte (exact TotalAlloc deltas; printing and re-encoding are only required not to panic) and grows the goroutine stacks by at most 4 MiB + 8 bytes per input byte (StackInuse deltas), read-only operations leave the caller's buffer byte-identical, objects returned without error survive all getters, printing and re-encoding. Non-trivial: input from the mutated, arbitrary, bigloop or bigfirst family; distinct by (target, input).",
 		"a returned error is always acceptable",
 		"the CLI main package is not driven in-process",
 		"hang / heap thresholds (20 s, 1 GiB) are four to six orders of magnitude above the normal cost of a case; the decoders' allocation budget is 4x above the maximum measured on the repaired tree (TestC05_ZAllocSurvey)")
